@@ -79,12 +79,69 @@ def rdH264DepObs : Rd (C09.DepObs Bool) := do
   let ap ← Rd.bool; let fs ← Rd.bool; let tw ← Rd.bool
   pure { res := r, md := md, head := h, tail0 := t0, tail1 := t1, auxPanic := ap, freshSame := fs, twinSame := tw }
 
+/-! ### what the driver evaluates for C10
+
+  `C10.rtOk` / `C10.decOk` (the predicates the theorems of Props/C10.lean are about) fix more than
+  the text of C10 says; the driver evaluates the weaker `rtOkR` / `decOkR` and restricts the
+  verdict to the property's quantifier with `rtWF` / `decWF`:
+  * "in Annex-B or AVC framing": an Annex-B stream may put 00 00 01 or 00 00 00 01 in front of a
+    unit; `Spec.Rfc6184.frameAnnexB` fixes the 4-byte form.  `annexBLoose` accepts either, unit by
+    unit (each expected unit is consumed by its length, so the match is deterministic).
+  * "Annex-B access units": a buffer without any start code (`bare`) is not an Annex-B stream.
+  * "any RFC 6184 single/STAP-A/FU-A stream": RFC 6184 §5.8 forbids fragmenting a NAL unit of type
+    0 or 24–31 into FU-As and §5.7.1 aggregates NAL units (a header octet, hence ≥ 1 byte, and here
+    of the types 1–23 the property is about); `Item.wf` admits more. -/
+
+/-- `out` is `units` in order, each preceded by a 3- or a 4-byte start code -/
+def annexBLoose : List Bytes → Bytes → Bool
+  | [], out => out.isEmpty
+  | n :: ns, out =>
+    match out with
+    | 0 :: 0 :: 1 :: r => n.isPrefixOf r && annexBLoose ns (r.drop n.length)
+    | 0 :: 0 :: 0 :: 1 :: r => n.isPrefixOf r && annexBLoose ns (r.drop n.length)
+    | _ => false
+
+/-- `C10.decodeOk` with either start-code length in Annex-B mode -/
+def decodeOkR (avc : Bool) (expected : List Bytes) (pkts : List C10.PktObs) : Bool :=
+  pkts.all (·.res.isOk) &&
+  (let out := pkts.flatMap (fun p => C10.resBytes p.res)
+   out == frame avc expected || (!avc && annexBLoose expected out))
+
+def rtOkR (i : C10.RtInput) (o : C10.RtObs) : Bool :=
+  C10.rtOk i o ||
+  (!o.panicked && o.calls.length == i.calls.length &&
+   C10.shapeOk i.disable i.expectedT o.pkts && decodeOkR i.avc i.expected o.pkts)
+
+def decOkR (i : C10.DecInput) (o : C10.DecObs) : Bool :=
+  C10.decOk i o ||
+  (!o.panicked && decodeOkR i.avc (i.plan.flatMap Item.nals) o.pkts &&
+   (!i.plan.all C10.headsApply || o.pkts.map (·.head) == i.plan.flatMap Item.heads))
+
+theorem rtOkR_of_rtOk (i : C10.RtInput) (o : C10.RtObs) : C10.rtOk i o = true → rtOkR i o = true := by
+  intro h; simp [rtOkR, h]
+
+theorem decOkR_of_decOk (i : C10.DecInput) (o : C10.DecObs) : C10.decOk i o = true → decOkR i o = true := by
+  intro h; simp [decOkR, h]
+
+/-- C10's quantifier for the round trip: the hypotheses of `RtInput.wf`, every buffer an Annex-B
+    stream (no bare unit) -/
+def rtWF (i : C10.RtInput) : Bool := i.wf && i.calls.all (fun c => !c.bare)
+
+/-- what RFC 6184 lets an encoder send beyond `Item.wf`: an FU-A carries a unit of type 1–23, a
+    STAP-A aggregates units of ≥ 1 byte and type 1–23 -/
+def itemRfc : Item → Bool
+  | .single _ => true
+  | .stapA _ ns => ns.all (fun n => decide (1 ≤ n.length) && decide (1 ≤ typeOf n ∧ typeOf n ≤ 23))
+  | .fuA h _ => decide (1 ≤ hType h ∧ hType h ≤ 23)
+
+def decWF (i : C10.DecInput) : Bool := i.wf && i.plan.all itemRfc
+
 /-! ### handlers -/
 def rt : Handler :=
-  mkHandler rdRtInput rdRtObs rtModel C10.rtOk (fun i => i.wf)
+  mkHandler rdRtInput rdRtObs rtModel rtOkR rtWF
 
 def dec : Handler :=
-  mkHandler rdDecInput rdDecObs decModel C10.decOk (fun i => i.wf)
+  mkHandler rdDecInput rdDecObs decModel decOkR decWF
 
 def c15 : Handler :=
   mkHandler rdC15Input rdC15Obs c15Model C15H264.ok (fun i => i.wf)
